@@ -368,7 +368,7 @@ func runC10(c *Ctx) {
 		}
 	}
 	// ---------- R4: what is reported is the size error itself (it carries 54000 / ERROR by the constructor rule)
-	if h, _ := c.exceededRecovery(); h != nil {
+	if h, slurpSite := c.exceededRecovery(); h != nil {
 		resolve := func(v ssa.Value) ssa.Value {
 			for depth := 0; depth < 4; depth++ {
 				v = core.Strip(v)
@@ -414,8 +414,8 @@ func runC10(c *Ctx) {
 		n := 0
 		for _, ci := range core.Calls(h) {
 			callee := core.StaticCallee(ci)
-			if callee == nil || (callee != emit && callee != ec) || len(ci.Common().Args) < 2 {
-				continue
+			if callee == nil || (callee != emit && callee != ec) || len(ci.Common().Args) < 2 || !core.InstrDominates(slurpSite, ci) {
+				continue // only the report that follows the skip
 			}
 			n++
 			v := ci.Common().Args[1]
